@@ -107,6 +107,30 @@ fn run_tool(tool: &str, args: &[String], stdin_data: &[u8], how: OutArg, timeout
     (class, content, se)
 }
 
+/// an OUTPUT that cannot be created (inside a directory that does not exist; a directory itself): the tool must not report
+/// success.  One line per way: `<tag>|unwritable|<which>|<exit class>|<anything on standard output 0/1>`
+fn unwritable(out: &mut dyn Write, tag: &str, tool: &str, args: &[String], stdin_data: &[u8], how: &OutArg, st: &mut Stats) {
+    let dir = scratch();
+    for (which, outp) in [("missing-directory", format!("{}/no_such_directory/out_{}.txt", dir, tool)), ("is-a-directory", dir.clone())] {
+        let mut a: Vec<String> = args.to_vec();
+        let mut input: Vec<u8> = stdin_data.to_vec();
+        match how {
+            OutArg::Positional => a.push(outp.clone()),
+            OutArg::DashO => { a.push("-o".into()); a.push(outp.clone()); }
+            OutArg::AfterInput => {
+                let inp = format!("{}/in_{}.txt", dir, tool);
+                let _ = std::fs::write(&inp, &input);
+                input.clear();
+                a.insert(0, outp.clone());
+                a.insert(0, inp);
+            }
+        }
+        let (class, so, _) = run_capture(&bin(tool), &a, &input, 60);
+        writeln!(out, "{}|unwritable|{}|{}|{}", tag, which, class, !so.is_empty() as u8).unwrap();
+        st.hit(&format!("unwritable.{}.{}", which, class));
+    }
+}
+
 /// `CARGO_PKG_VERSION` of a workspace member, read from its manifest in the tree under check
 fn crate_version(member: &str) -> String {
     let dir = std::env::var("VERIF_REPO_DIR").unwrap_or_else(|_| "/repo".to_string());
@@ -122,6 +146,7 @@ fn crate_version(member: &str) -> String {
 }
 
 pub fn c15(out: &mut dyn Write, tier: &str, _rng: &mut Rng, st: &mut Stats) {
+    unwritable(out, "C15", "n_queens_gen", &["-n".into(), "4".into()], &[], &OutArg::Positional, st);
     let mut ns: Vec<usize> = (1..=12).collect();
     ns.extend_from_slice(&[16, 20, 31, 32, 40, 255, 256, 300, 317]);
     if tier == "thorough" { ns.extend(13..=40); ns.extend_from_slice(&[64, 100, 128, 254, 257, 400, 1000]); }
@@ -227,6 +252,7 @@ fn names_table(pf: &ParsedFormula) -> String {
 }
 
 pub fn c16(out: &mut dyn Write, tier: &str, rng: &mut Rng, st: &mut Stats) {
+    unwritable(out, "C16", "max_clique_gen", &["-u".into()], b"a,b\nb,c\n", &OutArg::AfterInput, st);
     // vertex names: plain identifiers, and ones that look like the generator's own copies
     let pool = ["a", "b", "c", "d", "v_a", "v_b", "x1", "v_v_a", "v__a", "v___a", "v__b"];
     // names whose concatenations coincide (with and without a `_` between them): x + y_z = x_y + z, a + bc = ab + c
@@ -319,6 +345,7 @@ fn sudoku_rename(name: &str) -> Option<usize> {
 }
 
 pub fn c17(out: &mut dyn Write, tier: &str, rng: &mut Rng, st: &mut Stats) {
+    unwritable(out, "C17", "sudoku_gen", &["-r".into(), "1".into()], b"1", &OutArg::AfterInput, st);
     // the code points the standard library counts as white space (asked for every `char`): the model strips with a table
     // of its own (Sudoku.whitespaceTable), and the two must be the same list
     {
@@ -437,6 +464,7 @@ fn pairs_field(es: &[(String, String)]) -> String {
 }
 
 pub fn c18(out: &mut dyn Write, tier: &str, rng: &mut Rng, st: &mut Stats) {
+    unwritable(out, "C18", "random_graph_gen", &["3".into(), "2".into()], &[], &OutArg::DashO, st);
     let reps = if tier == "thorough" { 20 } else { 2 };
     // every (V, E, -u, --complete, --dot) request with V <= 6, incl. infeasible ones
     for v in 0..=6usize {
